@@ -55,7 +55,7 @@ for _pid, _why in [
 ]:
     na(_pid, _why)
 
-prop("C02", ["sql_prec", "static_eval", "operator_tpl", "rel_names", "lower_cols", "vec_utils", "group_take", "flatten_sort", "star_exclude", "std_arity"],
+prop("C02", ["sql_prec", "static_eval", "operator_tpl", "rel_names", "lower_cols", "vec_utils", "group_take", "flatten_sort", "star_exclude", "std_arity", "limit_select"],
      not_covered="evaluation inside the database; dialect templates beyond the strengths they declare; sites that build SQL operands "
                  "without translate_operand (process_concat, process_array_in, try_into_between) are not yet under contract")
 claim("C02",
@@ -72,7 +72,7 @@ claim("C02",
       "Oracle = SQLite's documented precedence table (the executable grammar here). translate_expr is external (uninterpreted result, "
       "Context state not modelled); sqlparser enums are mechanically generated skeletons; sqlparser's Display is trusted to print trees as written.")
 
-prop("C01", ["split_order", "take_range", "operator_tpl", "vec_utils", "group_take", "flatten_sort", "star_exclude", "std_arity"],
+prop("C01", ["split_order", "take_range", "operator_tpl", "vec_utils", "group_take", "flatten_sort", "star_exclude", "std_arity", "limit_select"],
      not_covered="anchor_split cid redirection, preprocess (distinct/union recognition), lowering, flattening, the other pluck call sites of translate_select_pipeline (select / sort / take / join): hash-map threaded folds over three "
                  "IRs; a violation there is invisible to these contracts")
 claim("C01",
@@ -140,15 +140,16 @@ claim("C14",
       "pr::Expr::write's use of needs_parenthesis and the non-binary arms' option handling are read off the text, not verified; chumsky's pratt() "
       "semantics assumed; regex / HashSet / Formatter / String operations are shims by contract.")
 
-prop("C05", ["select_shape", "star_exclude"],
-     not_covered="translate_wildcards (which columns a star brings along: hash-set algebra over relation instances), extract_atomic's limiting SELECT, agreement "
+prop("C05", ["select_shape", "star_exclude", "limit_select"],
+     not_covered="translate_wildcards (which columns a star brings along: hash-set algebra over relation instances), split_off_back / anchor_split behind extract_atomic, agreement "
                  "with the resolver's frame for every program, run-time expansion of `*`")
 claim("C05",
       "PARTIAL. Proved on the real code: translate_select_item leaves a select item un-aliased only when the name SQL infers is EXACTLY the expected "
       "name, aliases it with the expected name otherwise, and gives an unnamed column a generated name no column carries (SS2a-c); the decision "
       "function of deduplicate_select_items drops an item only when it is an exact duplicate (same text, same quoting) of one kept before (DD1-3); "
       "helper sort columns are appended to CTE projections only and never reorder or remove what was selected (SS3a-b); translate_exclude names every unrequested "
-      "column of a star in the dialect's EXCLUDE / EXCEPT clause (star_exclude TE2-3). The obligation that such columns are excluded for EVERY dialect (TE1) fails for "
+      "column of a star in the dialect's EXCLUDE / EXCEPT clause (star_exclude TE2-3); extract_atomic leaves a SELECT that projects only requested columns alone and "
+      "otherwise puts a SELECT of exactly the requested columns, in the requested order, on top (limit_select EA1-3). The obligation that such columns are excluded for EVERY dialect (TE1) fails for "
       "dialects without such a clause: recorded finding (`_expr_0` appears in the result on SQLite). NOT proved: wildcard / "
       "exclude translation, arity and order of the final projection for every program.",
       "translate_cid, the computation of the inferred name, HashMap / HashSet / NameGenerator are shims by contract; the iteration of retain() and "
@@ -223,7 +224,7 @@ def _safety(name):
 
 
 _ALL_UNITS = ["take_range", "sort_take", "split_order", "window_frame", "dialect_select", "ident_quote", "ids_names", "toposort", "rq_tables",
-              "select_shape", "span_units", "sql_prec", "prql_prec", "literals", "set_ops", "desugar", "resolve_guards", "lex_strings", "limit_clause", "static_eval", "operator_tpl", "rel_names", "lower_cols", "vec_utils", "group_take", "flatten_sort", "star_exclude", "std_arity"]
+              "select_shape", "span_units", "sql_prec", "prql_prec", "literals", "set_ops", "desugar", "resolve_guards", "lex_strings", "limit_clause", "static_eval", "operator_tpl", "rel_names", "lower_cols", "vec_utils", "group_take", "flatten_sort", "star_exclude", "std_arity", "limit_select"]
 prop("C12", _ALL_UNITS, select={u: _safety for u in _ALL_UNITS},
      not_covered="every function that is not under contract (~150 unwrap/expect sites, todo!() in type_intersection, panic!(cannot find cid) in lookup_cid), "
                  "recursion depth, chumsky, time bounds")
